@@ -1,0 +1,63 @@
+//go:build verif
+
+package handshake
+
+// Verification-only exports (build tag "verif") for the EDF round-trip harness: the cache builders
+// the handshake runs on the two announced MessageIntroduce tables, and the framing used to exchange
+// the handshake messages. Add-only; nothing here is compiled into a normal build.
+
+import (
+	"net"
+	"sync"
+	"time"
+
+	"ergo.services/ergo/gen"
+)
+
+// VerifCaches is what Start/Accept put into ConnectionOptions: local is this node's own
+// MessageIntroduce, remote the one received from the peer.
+func VerifCaches(local, remote MessageIntroduce) ConnectionOptions {
+	h := &handshake{}
+	return ConnectionOptions{
+		EncodeAtomCache: h.makeEncodeAtomCache(local.AtomCache),
+		EncodeRegCache:  h.makeEncodeRegCache(local.RegCache),
+		EncodeErrCache:  h.makeEncodeErrCache(local.ErrCache),
+		DecodeAtomCache: h.makeDecodeAtomCache(remote.AtomCache),
+		DecodeRegCache:  h.makeDecodeRegCache(remote.RegCache),
+		DecodeErrCache:  h.makeDecodeErrCache(local.ErrCache, remote.ErrCache),
+	}
+}
+
+func VerifMakeEncodeAtomCache(local map[uint16]gen.Atom) *sync.Map {
+	return (&handshake{}).makeEncodeAtomCache(local)
+}
+
+func VerifMakeEncodeRegCache(local map[uint16]string) *sync.Map {
+	return (&handshake{}).makeEncodeRegCache(local)
+}
+
+func VerifMakeEncodeErrCache(local map[uint16]error) *sync.Map {
+	return (&handshake{}).makeEncodeErrCache(local)
+}
+
+func VerifMakeDecodeAtomCache(remote map[uint16]gen.Atom) *sync.Map {
+	return (&handshake{}).makeDecodeAtomCache(remote)
+}
+
+func VerifMakeDecodeRegCache(remote map[uint16]string) *sync.Map {
+	return (&handshake{}).makeDecodeRegCache(remote)
+}
+
+func VerifMakeDecodeErrCache(local, remote map[uint16]error) *sync.Map {
+	return (&handshake{}).makeDecodeErrCache(local, remote)
+}
+
+// VerifWriteMessage / VerifReadMessage: the framing (magic, version, length, EDF body) every
+// handshake message travels in.
+func VerifWriteMessage(conn net.Conn, message any) error {
+	return (&handshake{}).writeMessage(conn, message)
+}
+
+func VerifReadMessage(conn net.Conn, timeout time.Duration, chunk []byte) (any, []byte, error) {
+	return (&handshake{}).readMessage(conn, timeout, chunk)
+}
